@@ -424,6 +424,8 @@ func runC19(cases string, res *Result) {
 	eng := &c19Engine{eng: twig.New(), have: map[string]bool{}}
 	c19CheckCaseHypotheses(res)
 	c19LiteralBaseChains(res)
+	c19ChainsStepByStep(res)
+	c19AbsAtTheEdges(res)
 	readCases(cases, func(c Case) {
 		stream := c.str("stream")
 		f := c.str("f")
